@@ -122,7 +122,7 @@ theorem auxView_cons3 (t0 t1 t : Byte) (v : List Byte) :
         | [c] => some ((t0, t1), .char c)
         | _ => none
       else if t == 90#8 then some ((t0, t1), .str v)
-      else if t == 72#8 then some ((t0, t1), .hex v)
+      else if t == 72#8 then some ((t0, t1), .hex (hexEnc v))
       else if t == 66#8 then
         match v with
         | sub :: n0 :: n1 :: n2 :: n3 :: elems =>
@@ -144,7 +144,6 @@ theorem auxView_spec (a : List Byte) (h : auxOK a = true) :
     have hg : (t0 :: t1 :: t :: v).getD 2 0#8 = t := rfl
     refine ⟨t0, t1, ?_⟩
     rw [auxView_cons3]
-    simp only [encAux, hg]
     split at h
     · -- 'A'
       rename_i hA
@@ -152,17 +151,22 @@ theorem auxView_spec (a : List Byte) (h : auxOK a = true) :
       subst hA'
       have hv : v.length = 1 := by simpa using h
       match v, hv with
-      | [c], _ => exact ⟨.char c, rfl, rfl⟩
+      | [c], _ => exact ⟨.char c, rfl, by rw [encAux_other _ _ _ _ rfl]; rfl⟩
     split at h
-    · -- 'Z' / 'H'
+    · -- 'Z'
       rename_i hA hZ
-      simp only [Bool.or_eq_true, beq_iff_eq] at hZ
-      rcases hZ with rfl | rfl
-      · exact ⟨.str v, rfl, by simp [Hts.Spec.Bam.auxBytes, isZH]⟩
-      · exact ⟨.hex v, rfl, by simp [Hts.Spec.Bam.auxBytes, isZH]⟩
+      have hZ' : t = 90#8 := by simpa using hZ
+      subst hZ'
+      exact ⟨.str v, rfl, by rw [encAux_Z]; simp [Hts.Spec.Bam.auxBytes]⟩
+    split at h
+    · -- 'H': the value is the hex-digit text of the in-memory bytes
+      rename_i hA hZ hH
+      have hH' : t = 72#8 := by simpa using hH
+      subst hH'
+      exact ⟨.hex (hexEnc v), rfl, by rw [encAux_H]; simp [Hts.Spec.Bam.auxBytes]⟩
     split at h
     · -- 'B'
-      rename_i _ _ hB
+      rename_i _ _ _ hB
       have hB' : t = 66#8 := by simpa using hB
       subst hB'
       split at h
@@ -174,26 +178,23 @@ theorem auxView_spec (a : List Byte) (h : auxOK a = true) :
           obtain ⟨vs, hvs⟩ := readElems_exists e (getU32 n0 n1 n2 n3) elems (by rw [hew]; exact hl)
           obtain ⟨hn, hb⟩ := readElems_spec e _ _ _ hvs
           refine ⟨.arr e vs, by simp [he, hvs], ?_⟩
-          have : isZH 66#8 = false := rfl
-          simp only [Hts.Spec.Bam.auxBytes, hn, le4, putU32_get, hb, hel, this, Bool.false_eq_true, ↓reduceIte,
+          rw [encAux_other _ _ _ _ rfl]
+          simp only [Hts.Spec.Bam.auxBytes, hn, le4, putU32_get, hb, hel,
             List.append_nil, List.cons_append, List.nil_append]
         · simp at h
       · simp at h
     · -- c C s S i I f
-      rename_i hA hZ hB
+      rename_i hA hZ hH hB
       split at h
       · rename_i w hw
         have hv : v.length = w := by simpa using h
         obtain ⟨e, he, hew, hel⟩ := elemOfLetter_of_width hw
         have hz := (elemWidth_notZH hw).1
-        have hZ1 : (t == 90#8) = false := by
-          simp only [isZH, Bool.or_eq_false_iff] at hz; exact hz.1
-        have hZ2 : (t == 72#8) = false := by
-          simp only [isZH, Bool.or_eq_false_iff] at hz; exact hz.2
         refine ⟨.num e (elemVal e v), ?_, ?_⟩
-        · simp [hA, hZ1, hZ2, hB, he, hv, hew]
-        · simp only [Hts.Spec.Bam.auxBytes, elem_roundtrip e v (by rw [hv, hew]), hel, hz, Bool.false_eq_true,
-            ↓reduceIte, List.append_nil, List.cons_append, List.nil_append]
+        · simp [hA, hZ, hH, hB, he, hv, hew]
+        · rw [encAux_other _ _ _ _ hz]
+          simp only [Hts.Spec.Bam.auxBytes, elem_roundtrip e v (by rw [hv, hew]), hel,
+            List.append_nil, List.cons_append, List.nil_append]
       · simp at h
 
 
